@@ -51,11 +51,13 @@ type FuncContract struct {
 	file     string
 	line     int
 	isIface  bool
+	isExtern bool
 	fresh    bool // result is a freshly allocated object
 	depth    int  // inline depth override
 	maxPaths int
 	reveals  []string
 	splits   []*Clause // case splits at entry: expr over the listed constant values (exprs)
+	waitinvs []*Clause // monitor invariant: asserted before, assumed after every sync.Cond.Wait in this function
 }
 
 type SpecFunc struct {
@@ -100,6 +102,7 @@ type PkgContracts struct {
 	imports map[string]string // alias -> path (declared with //@ import)
 	macros  map[string]*Macro
 	chans   map[string]*Clause // "pkgpath.Type.field" -> invariant over v
+	externs map[string]*FuncContract // callee.String() -> assumed contract
 }
 
 var implRe = regexp.MustCompile(`==>`)
@@ -235,7 +238,7 @@ func parseSpecExpr(text string) (ast.Expr, error) {
 	return e, nil
 }
 
-var kwRe = regexp.MustCompile(`^(macro|chan|gset|func|iface|spec|lemma|ghost|import|requires|ensures|modifies|inline|trusted|noverify|pure|fresh|loop|let|props|opaque|inlines|panics_when|depth|maxpaths|reveal|split)\b`)
+var kwRe = regexp.MustCompile(`^(extern|macro|chan|gset|func|iface|spec|lemma|ghost|import|requires|ensures|modifies|inline|trusted|noverify|pure|fresh|loop|let|props|opaque|inlines|panics_when|depth|maxpaths|reveal|split|waitinv)\b`)
 
 // ParseContractFile extracts contracts from the //@ lines of a file.
 func ParseContractFile(pkgPath, file string, src []byte, pc *PkgContracts) error {
@@ -308,6 +311,14 @@ func ParseContractFile(pkgPath, file string, src []byte, pc *PkgContracts) error
 				p := strings.Trim(f[0], `"`)
 				pc.imports[p[strings.LastIndex(p, "/")+1:]] = p
 			}
+		case "extern":
+			// extern <callee as printed by go/ssa, e.g. net.ParseIP or (net.IP).Equal>: assumed contract for a
+			// function outside the repository (always trusted, listed in the evidence)
+			cur = &FuncContract{pkg: pkgPath, name: rest, loops: map[int]*LoopContract{}, file: file, line: it.line, trusted: true, isExtern: true}
+			if pc.externs == nil {
+				pc.externs = map[string]*FuncContract{}
+			}
+			pc.externs[rest] = cur
 		case "func", "iface":
 			cur = &FuncContract{pkg: pkgPath, name: rest, loops: map[int]*LoopContract{}, file: file, line: it.line, isIface: kw == "iface"}
 			if kw == "iface" {
@@ -394,12 +405,14 @@ func ParseContractFile(pkgPath, file string, src []byte, pc *PkgContracts) error
 				return fmt.Errorf("%s:%d: clause %q outside func", file, it.line, kw)
 			}
 			switch kw {
-			case "requires", "ensures", "panics_when":
+			case "requires", "ensures", "panics_when", "waitinv":
 				c, err := mk(kw, rest)
 				if err != nil {
 					return err
 				}
 				switch kw {
+				case "waitinv":
+					cur.waitinvs = append(cur.waitinvs, c)
 				case "requires":
 					cur.requires = append(cur.requires, c)
 				case "ensures":
